@@ -96,23 +96,6 @@ theorem src_imports_end_keeps_case_variants (c : OutputFile) :
 section ns
 open Bp.Importing
 
-/-- in a namespace where two bindings of one name are the same binding, what a name is bound to depends on the SET
-    of bindings only — not on the order of the import statements, nor on repetitions -/
-theorem lookupNs_same_set (ns1 ns2 : List (Importing.Str × Obj)) (h12 : ∀ b ∈ ns1, b ∈ ns2) (h21 : ∀ b ∈ ns2, b ∈ ns1)
-    (hcons : ∀ b ∈ ns1, ∀ b' ∈ ns1, b.1 = b'.1 → b = b') (a : Importing.Str) : lookupNs ns1 a = lookupNs ns2 a := by
-  by_cases h : ∃ b ∈ ns1, b.1 = a
-  · obtain ⟨⟨a', o⟩, hb, rfl⟩ := h
-    rw [lookupNs_unique ns1 a' o hb (fun b' hb' e => by rw [hcons b' hb' (a', o) hb e]),
-      lookupNs_unique ns2 a' o (h12 _ hb) (fun b' hb' e => by rw [hcons b' (h21 _ hb') (a', o) hb e])]
-  · have h1 : ∀ b ∈ ns1, b.1 ≠ a := fun b hb e => h ⟨b, hb, e⟩
-    rw [lookupNs_none ns1 a h1, lookupNs_none ns2 a (fun b hb => h1 b (h21 b hb))]
-
-/-- … hence so does the value of every forward reference -/
-theorem denoteNs_same_set (cur : Pkg) (ns1 ns2 : List (Importing.Str × Obj)) (h12 : ∀ b ∈ ns1, b ∈ ns2)
-    (h21 : ∀ b ∈ ns2, b ∈ ns1) (hcons : ∀ b ∈ ns1, ∀ b' ∈ ns1, b.1 = b'.1 → b = b') (r : Ref) :
-    denoteNs cur ns1 r = denoteNs cur ns2 r := by
-  cases r <;> simp only [denoteNs, lookupNs_same_set ns1 ns2 h12 h21 hcons]
-
 /-- **composition with `all_at_once` (Props/C13.lean)**: let `sites` be the reference sites of the module of package
     `cur` and let `imports_end` hold the texts (`Import.render`) of their imports — every site's import is there or is
     "no import", nothing else is there; listed in ANY order, a set has none.  Then (1) the body template as written
